@@ -125,6 +125,7 @@ class MarketRun:
             if log.price is not None:
                 self.fail("C08", "market_order_priced", f"market order accepted with price {log.price!r}")
         mo = M.add(is_buy, log.price, vol, ttl, agent)
+        mo.asked = price
         if log.order_id != mo.oid or o.order_id != mo.oid:
             self.fail("C04", "order_id", f"accepted id {log.order_id} / {o.order_id}, expected consecutive id {mo.oid}")
         if o.placed_at != M.t or log.time != M.t:
@@ -293,6 +294,12 @@ class MarketRun:
                 self.fail("C01", "price_above_buy_limit", f"fill at {l.price!r} above buy limit {b.price!r}")
             if a.price is not None and not (l.price >= a.price):
                 self.fail("C01", "price_below_sell_limit", f"fill at {l.price!r} below sell limit {a.price!r}")
+            # ... and the limits the owners SUBMITTED (the accepted limit is never more aggressive than the submitted one,
+            # up to the float representation of the grid: a few ulps of the price)
+            if b.asked is not None and not (l.price <= b.asked * (1 + 2.0 ** -48)):
+                self.fail("C01", "price_above_submitted_buy_limit", f"fill at {l.price!r} above the buy limit {b.asked!r} its owner submitted (accepted as {b.price!r})")
+            if a.asked is not None and not (l.price >= a.asked * (1 - 2.0 ** -48)):
+                self.fail("C01", "price_below_submitted_sell_limit", f"fill at {l.price!r} below the sell limit {a.asked!r} its owner submitted (accepted as {a.price!r})")
             if price is None:
                 price = l.price
             elif l.price != price:
@@ -643,6 +650,11 @@ def market_cases(draw, max_ops: int = 60, market_frac: int = 2, illegal: bool = 
     offgrid = st.floats(min_value=-width, max_value=width, allow_nan=False).map(lambda x: base + x * tick)
     price = st.one_of(grid, grid, grid, offgrid) if few_levels else st.one_of(grid, grid, offgrid)
     price = price.filter(lambda p: p > 0)
+    if not deep and draw(st.integers(0, 5)) == 0:
+        # a penny-stock history: the reference price is a few ticks, some limits lie below one tick
+        p0 = 3 * tick
+        base = 3 * tick
+        price = st.one_of(st.integers(1, 6).map(lambda k: k * tick), st.floats(min_value=0.05, max_value=5.0, allow_nan=False).map(lambda x: x * tick))
     if deep:
         # a deep, mostly uncrossed book: bids below and offers above the reference price on many distinct levels
         far_bid = st.integers(min_value=0, max_value=14).map(lambda k: base - k * tick)
